@@ -1,7 +1,9 @@
 (* C04 - active_vertices_connected holds exactly for connected (or tree) active sets *)
 From Coq Require Import ZArith List Bool Arith.
 From Cspuz Require Import Lib.PyErr Core.Expr Core.Program Core.Build
-  Graph.GraphModel Graph.ReachProofs Graph.Avc Graph.AvcCert Graph.AvcSem Graph.AvcProofs Graph.AvcTyping Graph.AvcTotal.
+  Graph.GraphModel Graph.ReachProofs Graph.Avc Graph.AvcCert Graph.AvcSem Graph.AvcProofs Graph.AvcTyping Graph.AvcTotal
+  Graph.AvcTree Graph.AvcTreeExact.
+From Cspuz Require Graph.Acyclic.
 Import ListNotations.
 Local Open Scope nat_scope.
 
@@ -114,3 +116,45 @@ Theorem wt_acts_defined : forall en acts,
   forallb (wt true) acts = true -> acts_defined en acts.
 Proof. exact AvcTyping.wt_acts_defined. Qed.
 Print Assumptions wt_acts_defined.
+
+(* the edge-count definition of "tree" used above is the usual one: connected
+   and every induced edge between two distinct active vertices is a bridge of
+   the induced subgraph (no cycle; parallel induced edges are a cycle).  For
+   every well-formed multigraph; self-loops are ignored by both sides *)
+Theorem tree_iff_bridges : forall g act, wf_graph g = true ->
+  (tree g act <->
+   (connected g act /\
+    (forall e a b, nth_error (edges g) e = Some (a, b) -> act a = true -> act b = true -> a <> b ->
+                   ~ reach g act (fun k => negb (Nat.eqb k e)) a b))).
+Proof. exact AvcTree.tree_iff_bridges. Qed.
+Print Assumptions tree_iff_bridges.
+
+(* the former stretch-goal statement (loop-free graphs, no side condition) *)
+Theorem tree_iff_no_cycle : forall g act, wf_graph g = true -> loop_free g = true ->
+  (tree g act <->
+   (connected g act /\
+    (forall e a b, nth_error (edges g) e = Some (a, b) -> act a = true -> act b = true ->
+                   ~ reach g act (fun k => negb (Nat.eqb k e)) a b))).
+Proof. exact AvcTreeExact.tree_iff_no_cycle. Qed.
+Print Assumptions tree_iff_no_cycle.
+
+(* acyclic=True with the bridge definition *)
+Theorem avc_acyclic_exact_bridges : forall st acts g st' en,
+  wf_graph g = true -> fresh_below (next_id st) acts -> acts_defined en acts ->
+  post_avc st acts g true false = Ok st' ->
+  ((exists en', agree_below (next_id st) en en' /\
+                in_bounds_from en' (next_id st) (new_vars st st') = true /\
+                forallb (holds gsem_avc en') (new_cons st st') = true)
+   <-> (connected g (pattern en acts) /\
+        (forall e a b, nth_error (edges g) e = Some (a, b) ->
+                       pattern en acts a = true -> pattern en acts b = true -> a <> b ->
+                       ~ reach g (pattern en acts) (fun k => negb (Nat.eqb k e)) a b))).
+Proof. exact AvcTreeExact.avc_acyclic_exact_bridges. Qed.
+Print Assumptions avc_acyclic_exact_bridges.
+
+(* the link with C09: a tree is a connected active set whose induced non-loop
+   edges (as an edge pattern) form a forest in the sense of active_edges_acyclic *)
+Theorem tree_iff_forest : forall g act, wf_graph g = true ->
+  (tree g act <-> (connected g act /\ Acyclic.forest g (ind_edge g act))).
+Proof. exact AvcTree.tree_iff_forest. Qed.
+Print Assumptions tree_iff_forest.
